@@ -69,6 +69,15 @@ CHECKS = {
    technique="deterministic simulation with the SecretKey trait as seam: SimHsm (raw-scalar and opaque-handle serialization) vs direct key on equal tapes compared event by event, seam call log, and the seam failing at the n-th fallible call for every op and every n",
    text="Messages, password file, login state and keys are byte-identical with the key held directly or behind the external-key interface (setup compared on seed, fake key and public key), through memory, codecs and permanent reloads; only public_key/diffie_hellman/clone are called while serving; each injected failure returns exactly LibraryError(Custom(HsmErr(n))) (or the serde error carrying it), never Ok and never a panic.",
    note="n enumerated completely per op; worlds seeded"),
+
+ "C09": dict(cat="exploration", ref="DESIGN.md section 3 C09 and Appendix A",
+   technique="deterministic simulation with recording tapes, refined step by step against an executable reference model (Model B: independent RFC 9807/9497 transcription pinned by the RFC's own vectors); witnesses from serialized states, hidden choices matched among recorded draws by value",
+   text="Every registration/login message, the password file, export key, session keys, the value handed to the KSF and the pending server state are recomputed by Model B from the inputs and the random choices actually made, for honest worlds over all parameter classes (empty to 65535-byte passwords, identities > 255 bytes, one-sided identities, 65535-byte contexts), real and absent password files, SimKsf/Identity/Argon2, on all 44 suite instantiations; any differing byte is a violation, as is a client that accepts/rejects differently from the specification's client.",
+   note="Model B trusts curve crates (arithmetic, NIST hash-to-curve), sha2, argon2; Nseed := Nsk of the KE group; B must reproduce the 9 RFC vectors first (else exit 2)"),
+ "C14": dict(cat="exploration", ref="DESIGN.md section 3 C14",
+   technique="deterministic simulation comparing related runs: pairs of independent blinding tapes, one input varied at a time (credential id twins, seed, password), evaluations repeated under swapped static keys / without record / through reloads; relational oracle over all pairs + Model B's blind-free formula",
+   text="Equal (password, seed, credential id, KSF) must give equal masking keys on independent blinds and any difference must give different ones; equal (seed, credential id, request) must give the same evaluation element whatever the static key, record or reload, and any difference a different one; blinded requests never repeat; the masking key equals the specification's value computed without any blind.",
+   note="'unrelated' is tested as 'not equal'; sampled worlds, all pairs inside a world"),
 }
 
 NOT_APPLICABLE = {
